@@ -223,7 +223,8 @@ class FileTerm(FnCase):
         from ..bounded import io as bio
         chk = {'csv': 'check_c18', 'json': 'check_c19', 'parquet': 'check_c20'}.get(self.name.split('.')[0])
         if chk is None: return None
-        return (getattr(bio, chk)({}).get('failures') or [None])[0]
+        from ..bounded.mux import first_new_failure
+        return first_new_failure(getattr(bio, chk)({}))
 
 
 def names(chain):
@@ -487,7 +488,8 @@ class FileRead(FnCase):
 
     def e2e(self):
         from ..bounded import io as bio
-        return (bio.check_c19({}).get('failures') or [None])[0]
+        from ..bounded.mux import first_new_failure
+        return first_new_failure(bio.check_c19({}))
 
 
 class FileWrite(FnCase):
@@ -547,7 +549,8 @@ class SubscriptionState(FnCase):
     def e2e(self):
         from ..bounded import io as bio
         r = getattr(bio, _STATE_E2E[self.group])({})
-        f = (r.get('failures') or [None])[0]
+        from ..bounded.mux import first_new_failure
+        f = first_new_failure(r)
         return dict(f, shared_state=[f'{h}: nonlocal {v} bound in {b}()' for h, v, b in self.found]) if f else None
 
 
